@@ -23,6 +23,8 @@ import (
 	"encoding/base64"
 	"fmt"
 	"strconv"
+	"unicode/utf16"
+	"unicode/utf8"
 
 	"github.com/cloudwego/dynamicgo/http"
 	"github.com/cloudwego/dynamicgo/internal/json"
@@ -95,7 +97,7 @@ func (self *BinaryConv) doRecurse(ctx context.Context, s string, jp int, desc *t
 		case types.V_STRING:
 			var str string
 			if v.Ep >= 0 && v.Ep < int64(ret) {
-				str, err = strconv.Unquote(s[v.Iv-1 : ret])
+				str, err = unquoteJSON(s[v.Iv-1 : ret])
 				if err != nil {
 					return
 				}
@@ -192,7 +194,7 @@ func (self *BinaryConv) doRecurse(ctx context.Context, s string, jp int, desc *t
 
 					var key string
 					if v.Ep >= 0 && v.Ep < int64(ret) {
-						key, err = strconv.Unquote(s[v.Iv-1 : ret])
+						key, err = unquoteJSON(s[v.Iv-1 : ret])
 						if err != nil {
 							return
 						}
@@ -273,7 +275,7 @@ func (self *BinaryConv) doRecurse(ctx context.Context, s string, jp int, desc *t
 
 					var key string
 					if v.Ep >= 0 && v.Ep < int64(ret) {
-						key, err = strconv.Unquote(s[v.Iv-1 : ret])
+						key, err = unquoteJSON(s[v.Iv-1 : ret])
 						if err != nil {
 							return
 						}
@@ -394,4 +396,91 @@ func (self *BinaryConv) handleValueMapping(ctx context.Context, src string, star
 		return newError(meta.ErrConvert, fmt.Sprintf("failed to convert field '%s' value", f.Name()), err)
 	}
 	return nil
+}
+
+// unquoteJSON decodes the JSON string literal s (with its quotes) as RFC 8259 defines it.
+// strconv.Unquote implements Go literals instead: it rejects the escape \/ and accepts
+// escapes that JSON does not have (\a \v \x.. \' octal \U........).
+func unquoteJSON(s string) (string, error) {
+	if len(s) < 2 || s[0] != '"' || s[len(s)-1] != '"' {
+		return "", strconv.ErrSyntax
+	}
+	s = s[1 : len(s)-1]
+	buf := make([]byte, 0, len(s))
+	for i := 0; i < len(s); {
+		c := s[i]
+		if c == '"' || c < 0x20 {
+			return "", strconv.ErrSyntax
+		}
+		if c != '\\' {
+			buf = append(buf, c)
+			i++
+			continue
+		}
+		if i+1 >= len(s) {
+			return "", strconv.ErrSyntax
+		}
+		switch s[i+1] {
+		case '"', '\\', '/':
+			buf = append(buf, s[i+1])
+		case 'b':
+			buf = append(buf, '\b')
+		case 'f':
+			buf = append(buf, '\f')
+		case 'n':
+			buf = append(buf, '\n')
+		case 'r':
+			buf = append(buf, '\r')
+		case 't':
+			buf = append(buf, '\t')
+		case 'u':
+			r, ok := hex4(s, i+2)
+			if !ok {
+				return "", strconv.ErrSyntax
+			}
+			i += 6
+			if utf16.IsSurrogate(r) {
+				// a high surrogate must be followed by an escaped low surrogate
+				r2, ok2 := rune(0), false
+				if i+6 <= len(s) && s[i] == '\\' && s[i+1] == 'u' {
+					r2, ok2 = hex4(s, i+2)
+				}
+				if dec := utf16.DecodeRune(r, r2); ok2 && dec != utf8.RuneError {
+					r = dec
+					i += 6
+				} else {
+					r = utf8.RuneError
+				}
+			}
+			var tmp [utf8.UTFMax]byte
+			buf = append(buf, tmp[:utf8.EncodeRune(tmp[:], r)]...)
+			continue
+		default:
+			return "", strconv.ErrSyntax
+		}
+		i += 2
+	}
+	return rt.Mem2Str(buf), nil
+}
+
+// hex4 reads four hexadecimal digits at s[i:].
+func hex4(s string, i int) (rune, bool) {
+	if i+4 > len(s) {
+		return 0, false
+	}
+	var r rune
+	for _, c := range []byte(s[i : i+4]) {
+		switch {
+		case c >= '0' && c <= '9':
+			c -= '0'
+		case c >= 'a' && c <= 'f':
+			c -= 'a' - 10
+		case c >= 'A' && c <= 'F':
+			c -= 'A' - 10
+		default:
+			return 0, false
+		}
+		r = r<<4 | rune(c)
+	}
+	return r, true
 }
